@@ -30,4 +30,8 @@ AdvertiseDiscoveryResult build_transport_advertise_candidates(const Config& conf
 // callers can decide whether to auto-expose the control plane.
 std::optional<Config::AdvertiseCandidate> select_public_advertise_candidate(const AdvertiseDiscoveryResult& result);
 
+// True when the host is neither unspecified, loopback, private, link-local, shared (CGNAT),
+// documentation/benchmark, multicast/reserved nor an IPv4-mapped form of such an address.
+bool is_publicly_routable_host(const std::string& host);
+
 }  // namespace ephemeralnet::network
